@@ -22,10 +22,34 @@ use vnexus::dump;
 use vnexus::fixture::{Mode, Nx, Outcome, Stmt, Who, World};
 
 struct Scenario {
-    name: &'static str,
+    name: String,
     mode: Mode,
     text: &'static str,
+    /// `Some`: the reader issues just this one command (a probe that can be
+    /// scheduled at any point of the writer with a single preemption);
+    /// `None`: the reader issues the whole `reader_commands()` list.
+    probe: Option<&'static str>,
 }
+
+/// Concept + Evidence + Activity in one statement (three kinds, written in
+/// three different collections one row at a time).
+const MULTI_KIND: &str = r#"MUTATE {
+    CREATE CONCEPT ?c { TYPE "Person" NAME "Tri" SET FIELDS {key: "tri"} }
+    CREATE EVIDENCE ?e { SET FIELDS {evidence_class: "tool_result", payload: "tri"} SET STRUCTURAL { ("generated_by", ?act) } }
+    CREATE ACTIVITY ?act { SET FIELDS {activity_class: "tool_execution"} SET STRUCTURAL { ("outputs", ?e) } }
+}"#;
+
+/// Single-command readers: every META command that reads element or journal
+/// rows, plus two KQL controls.
+const PROBES: [&str; 7] = [
+    "DESCRIBE PRIMER",
+    r#"SEARCH CONCEPT "Tri""#,
+    r#"SEARCH COGNITION "tri""#,
+    "HISTORY SPACE",
+    "CHANGES AFTER SEQ 0 LIMIT 100",
+    "FIND(COUNT(?x)) WHERE { ?x EVIDENCE {} }",
+    r#"FIND(?x.id) WHERE { ?x ACTIVITY {state: "pending"} }"#,
+];
 
 const BLOCK: &str = r#"MUTATE {
     CREATE ASSERTION ?as { SET FIELDS {proposition: ?p, asserted_by: ?n, stance: "support", mode: "stated", confidence: 0.6, asserted_at: "2026-02-01T00:00:00Z"}
@@ -37,10 +61,11 @@ const BLOCK: &str = r#"MUTATE {
 }"#;
 
 fn scenarios() -> Vec<Scenario> {
-    vec![
-        Scenario { name: "five-new-rows", mode: Mode::Commit, text: BLOCK },
+    let mut out = vec![
+        Scenario { name: "five-new-rows".into(), mode: Mode::Commit, text: BLOCK, probe: None },
         Scenario {
-            name: "supersede-two-rows",
+            name: "supersede-two-rows".into(),
+            probe: None,
             mode: Mode::Commit,
             text: r#"MUTATE {
                 CREATE ASSERTION ?new { SET FIELDS {proposition: :p, asserted_by: :a, stance: "reject", mode: "stated", confidence: 0.8, asserted_at: "2026-02-02T00:00:00Z"} }
@@ -48,7 +73,8 @@ fn scenarios() -> Vec<Scenario> {
             }"#,
         },
         Scenario {
-            name: "archive-and-rename",
+            name: "archive-and-rename".into(),
+            probe: None,
             mode: Mode::Commit,
             text: r#"MUTATE {
                 UPDATE ?c SET FIELDS {name: "Ann B."} WHERE { ?c CONCEPT {key: "a"} }
@@ -56,17 +82,26 @@ fn scenarios() -> Vec<Scenario> {
                 TOMBSTONE ?c3 WHERE { ?c3 CONCEPT {key: "d"} }
             }"#,
         },
-        Scenario { name: "five-new-rows-dry-run", mode: Mode::DryRun, text: BLOCK },
-        Scenario { name: "five-new-rows-preview", mode: Mode::Preview, text: BLOCK },
+        Scenario { name: "five-new-rows-dry-run".into(), mode: Mode::DryRun, text: BLOCK, probe: None },
+        Scenario { name: "five-new-rows-preview".into(), mode: Mode::Preview, text: BLOCK, probe: None },
         Scenario {
-            name: "key-conflict-at-commit",
+            name: "key-conflict-at-commit".into(),
+            probe: None,
             mode: Mode::Commit,
             text: r#"MUTATE {
                 CREATE CONCEPT ?x { TYPE "Person" NAME "K1" SET FIELDS {key: "k"} }
                 CREATE CONCEPT ?y { TYPE "Person" NAME "K2" SET FIELDS {key: "k"} }
             }"#,
         },
-    ]
+    ];
+    for (statement, text) in [("three-kinds", MULTI_KIND), ("five-new-rows", BLOCK)] {
+        for probe in PROBES {
+            // the label is the command family, stable for signatures
+            let label: String = probe.split_whitespace().take(2).collect::<Vec<_>>().join("-").to_lowercase().replace(['(', ')', '?', '"'], "");
+            out.push(Scenario { name: format!("{statement}|probe-{label}"), mode: Mode::Commit, text, probe: Some(probe) });
+        }
+    }
+    out
 }
 
 /// What the reader asks, in this order.
@@ -118,7 +153,10 @@ struct Verdict {
 
 fn one_execution(content: &Content, scenario: &Scenario, ch: &mut Chooser) -> Verdict {
     let (nx, ctl) = Nx::open_gated(content);
-    let commands = reader_commands();
+    let commands = match scenario.probe {
+        Some(probe) => vec![probe.to_string()],
+        None => reader_commands(),
+    };
     let before: Vec<Json> = commands.iter().map(|c| masked(c, nx.q(c))).collect();
     let stmt = Stmt {
         text: scenario.text.to_string(),
@@ -217,7 +255,7 @@ fn main() {
     if let Some(file) = run.replay_file.clone() {
         let doc: Json = serde_json::from_slice(&std::fs::read(&file).expect("replay file")).expect("replay json");
         let name = doc["replay"]["scenario"].as_str().unwrap_or("");
-        let scenario = scenarios.iter().find(|s| s.name == name).expect("scenario");
+        let scenario = scenarios.iter().find(|s| s.name.as_str() == name).expect("scenario");
         let choices: Vec<u32> = serde_json::from_value(doc["replay"]["choices"].clone()).expect("choices");
         let mut ch = Chooser::new(choices);
         let verdict = one_execution(content, scenario, &mut ch);
@@ -236,11 +274,11 @@ fn main() {
     }
 
     let bound: u32 = run.tier.pick(1, 3);
-    let per_scenario = Duration::from_secs_f64(run.budget_s / scenarios.len() as f64);
+    let overall = Instant::now() + Duration::from_secs_f64(run.budget_s);
     let max_execs: u64 = 1_000_000;
     let mut completed: Vec<Json> = Vec::new();
     for scenario in &scenarios {
-        let deadline = Instant::now() + per_scenario;
+        let deadline = overall;
         let mut found: Vec<Violation> = Vec::new();
         let mut classes: std::collections::BTreeMap<(String, usize), u64> = Default::default();
         let mut steps_max = 0usize;
